@@ -545,7 +545,8 @@ fn recs_count(recs: &[spec::Rec], n: usize, sec: u8) -> usize {
 /// `A::build` into section SEC; SEC 0 inserts a second question (must fail,
 /// C10: nothing changes).
 pub fn insert<S: Src, K: Skel, const SEC: u8>(s: &mut S) -> Verdict {
-    let p = K::build(s);
+    // the refused insertion explores error paths: label characters concrete there
+    let p = if SEC == 0 { K::build_cl(s) } else { K::build(s) };
     let (recs, n) = recs_of::<K>();
     let ttl = s.u32();
     let a = [s.u8(), s.u8(), s.u8(), s.u8()];
